@@ -103,6 +103,11 @@ def run(chk, args):
     t0 = time.time()
     C03srv.server_phase(chk, wd, thorough)
     vlib.log("[C03] server-level phase: %.0fs" % (time.time() - t0))
+    # index tree: persistence protocol and recovery of embedded/tbtree (spec/IndexCrash.tla)
+    import C03idx
+    t0 = time.time()
+    C03idx.index_phase(chk, wd, thorough)
+    vlib.log("[C03] index crash phase: %.0fs" % (time.time() - t0))
     chk.cov["second_level_segments"] = nfree - runs
     chk.cov["script_segments"] = len(segs) - nfree
     r["traces"] = nfree
